@@ -1,4 +1,4 @@
-SPECIFICATION FairSpec
+SPECIFICATION Spec
 CONSTANTS
   W = {"w1", "w2"}
   MaxBody = 2
@@ -14,6 +14,4 @@ INVARIANT TempsDisjoint
 INVARIANT DeadIsIntact
 INVARIANT StaleKept
 PROPERTY OthersUntouched
-PROPERTY Termination
-PROPERTY Settled
 CHECK_DEADLOCK FALSE
